@@ -424,6 +424,22 @@ def build_repo(path, rng):
 ALL_CMDS = (["version"], ["flow"], ["version", "--output-format", "zerv"], ["flow", "--output-format", "pep440", "--schema", "standard-context"])
 
 
+# diagnostics a real git prints (remote helpers, file system, object store); zerv translates some of them by substring
+GIT_MSGS = [
+    "fatal: Authentication failed for 'https://example.invalid/r.git/'\n",
+    "git@example.invalid: Permission denied (publickey).\nfatal: Could not read from remote repository.\n",
+    "ssh: Could not resolve hostname example.invalid: Name or service not known\nfatal: Could not read from remote repository.\n",
+    "fatal: unable to access 'https://example.invalid/': Failed to connect: Network is unreachable\n",
+    "error: could not lock config file .git/config: Permission denied\n",
+    "fatal: shallow file has changed since we read it\n",
+    "error: object file .git/objects/ab/cdef is empty\nfatal: loose object abcdef (stored in .git/objects/ab/cdef) is corrupt\n",
+    "fatal: bad object HEAD\n",
+    "fatal: ambiguous argument 'HEAD': unknown revision or path not in the working tree.\n",
+    "warning: refname 'v1.0.0' is ambiguous.\n",
+    "hint: \xe6\x97\xa5\xe6\x9c\xac\xe8\xaa\x9e corrupt shallow Permission denied publickey %s {} {{ }}\n",
+]
+
+
 def work_faults(bins, seed, idx, tmp, part=None):
     """part: None = everything; 0..3 = only that command (part 0 also does layouts and environment faults)"""
     rng = random.Random("%s/%d" % (seed, idx))
@@ -462,15 +478,22 @@ def work_faults(bins, seed, idx, tmp, part=None):
                 bad.append(("clean-run-failed", "zerv failed in a healthy repository: %s" % r0["err"][:200], case0))
                 continue
             for k in range(1, n + 1):
-                for mode in MODES:
+                # every call fails in every generic mode; the realistic diagnostics rotate so that each (sub-command, text) pair comes up across repositories
+                msgs = [("msg", GIT_MSGS[(k + idx + j) % len(GIT_MSGS)]) for j in (0, 4)] + [("warn", GIT_MSGS[(k + 2 * idx + ci) % len(GIT_MSGS)])]
+                for mode in MODES + msgs:
                     if os.path.exists(log):
                         os.remove(log)
-                    envf = core.base_env(bins, home=home, gitlog=log, gitfail="%d:%s" % (k, mode), use_gitshim=True)
+                    gmsg = None
+                    if isinstance(mode, tuple):
+                        mode, gmsg = mode
+                        st["git_diagnostic:%s:%s" % (mode, gmsg.split("\n")[0][:40])] = st.get("git_diagnostic:%s:%s" % (mode, gmsg.split("\n")[0][:40]), 0) + 1
+                    envf = core.base_env(bins, home=home, gitlog=log, gitfail="%d:%s" % (k, mode), use_gitshim=True,
+                                         extra={"ZERV_VERIF_GIT_MSG": gmsg} if gmsg else None)
                     v = rng.random() < 0.2
                     r = core.run_zerv(bins, (cmd[:1] + ["-v"] + cmd[1:] if v else cmd) + ["-C", path], env=envf)
                     st["fault_runs"] += 1
                     pairs += 1
-                    case = dict(kind="fault", seed=seed, idx=idx, cmd=cmd, k=k, mode=mode, verbose=v)
+                    case = dict(kind="fault", seed=seed, idx=idx, cmd=cmd, k=k, mode=mode, verbose=v, git_msg=gmsg)
                     res = judge(r, argv)
                     if res and res[0][0] == "__timeout__":
                         continue
